@@ -218,6 +218,9 @@ def pick (bins : List Bin) (sel : Table) : List Bin := bins.filter (fun b => sel
 
 def modeOfString (s : String) : Mode := if s == "inner" then .inner else if s == "trim" then .trim else .outer
 
+/-- the mode `do_segmetrics` passes to `iter_ranges_of` (read from the source) -/
+def segmetricsMode : Mode := modeOfString (Generated.SEGMETRICS_RANGE_MODES.headD "outer")
+
 /-- `list(cnarr.iter_ranges_of(segarr, "log2", mode, True))`: one group of bins per segment, **in the
     order `iter_slices` yields them** (segments grouped by chromosome in order of first appearance) -/
 def segBins (bins : List Bin) (segs : List Seg) (mode : Mode) : List (List Bin) :=
@@ -297,7 +300,7 @@ def segRow (cfg : Cfg) (sg : Seg) (bs : List Bin) (boot : List BootRow) : SegSta
 def doSegmetrics (cfg : Cfg) (bins : List Bin) (segs : List Seg) (boots : List (List BootRow)) :
     List SegStats :=
   let bins' := if cfg.skipLow then dropLow bins else bins
-  let groups := segBins bins' segs .outer
+  let groups := segBins bins' segs segmetricsMode
   (segs.zip (groups.zip (boots ++ List.replicate segs.length []))).map
     (fun (sg, bs, boot) => segRow cfg sg bs boot)
 
